@@ -1,0 +1,64 @@
+//go:build verif
+
+package ast
+
+import "sort"
+
+// VerifTree renders a node of the syntax tree: ["char", rune, pos] | ["empty"] | ["cat", kids...] | ["alt", kids...] | ["star", kid].
+func VerifTree(n Node) []any {
+	switch v := n.(type) {
+	case *Char:
+		return []any{"char", int(v.Val), int(v.Pos)}
+	case *Empty:
+		return []any{"empty"}
+	case *Concat:
+		out := []any{"cat"}
+		for _, e := range v.Exprs {
+			out = append(out, VerifTree(e))
+		}
+		return out
+	case *Alt:
+		out := []any{"alt"}
+		for _, e := range v.Exprs {
+			out = append(out, VerifTree(e))
+		}
+		return out
+	case *Star:
+		return []any{"star", VerifTree(v.Expr)}
+	case nil:
+		return []any{"nil"}
+	}
+	return []any{"unknown"}
+}
+
+func verifPoses(p Poses) []int {
+	out := make([]int, 0, len(p))
+	for _, x := range p {
+		out = append(out, int(x))
+	}
+	sort.Ints(out)
+	return out
+}
+
+// VerifDump renders the tree of (r)µ with the functions the direct construction computes on it:
+// nullable, firstpos and lastpos of the root, followpos of every position, the end marker.
+func (a *AST) VerifDump() map[string]any {
+	follows := map[int][]int{}
+	for p, l := range a.follows {
+		follows[int(p)] = verifPoses(l)
+	}
+	chars := map[int]int{}
+	for p, c := range a.posToChar {
+		chars[int(p)] = int(c)
+	}
+	return map[string]any{
+		"tree":       VerifTree(a.Root),
+		"nullable":   a.Root.nullable(),
+		"first":      verifPoses(a.Root.firstPos()),
+		"last":       verifPoses(a.Root.lastPos()),
+		"follows":    follows,
+		"chars":      chars,
+		"positions":  int(a.lastPos),
+		"end_marker": int(endMarker),
+	}
+}
